@@ -115,6 +115,7 @@ type clusterCfg struct {
 	NoTicks    bool
 	PushPull   time.Duration // 0 = use config PushPullInterval
 	StreamAlt  bool          // stream dials are choice points (refuse) inside the window
+	StreamCut  int           // > 0: a third answer to a dial: connected, then broken after this many bytes in each direction
 	OnlyProto  bool          // only protocol packets (ping/ack/indirect/nack/suspect/alive/dead) are choice points
 	Monitor    bool          // attach the C07 event monitor to every node
 }
@@ -360,13 +361,25 @@ func (c *cluster) onDial(from *cnode, a ml.Address, d time.Duration) (net.Conn, 
 	if c.stopped || from.crashed || to == nil || to.crashed || (c.part != nil && c.part(from.idx, to.idx)) {
 		return refuse()
 	}
+	cut := 0
 	if c.cfg.StreamAlt && c.inWindow() {
-		if c.ch.choose("dial", 2, fmt.Sprintf("%s->%s @%v", from.Name, to.Name, descTime(c.since()))) == 1 {
+		n := 2
+		if c.cfg.StreamCut > 0 {
+			n = 3
+		}
+		switch c.ch.choose("dial", n, fmt.Sprintf("%s->%s @%v", from.Name, to.Name, descTime(c.since()))) {
+		case 1:
 			return refuse()
+		case 2:
+			cut = c.cfg.StreamCut // the connection is established and breaks after this many bytes each way
 		}
 	}
 	c1, c2 := simPipe(from.Addr, to.Addr)
 	c.b.conns = append(c.b.conns, c1, c2)
+	if cut > 0 {
+		c1.CutAfter(cut, false)
+		c2.CutAfter(cut, false)
+	}
 	to.T.Accept(c2)
 	return c1, nil
 }
